@@ -3,6 +3,7 @@ package main
 import (
 	"bytes"
 	"fmt"
+	"strings"
 	"time"
 
 	"github.com/ozanh/ugo"
@@ -51,11 +52,40 @@ func hostGlobals() ugo.Map {
 			return ugo.Undefined, nil
 		}},
 		"n": ugo.Int(0),
+		// the host calls a script function back through an Invoker (a child VM), not pooled / pooled
+		"callfn": &ugo.Function{Name: "callfn", ValueEx: func(c ugo.Call) (ugo.Object, error) {
+			if c.Len() < 1 {
+				return ugo.Undefined, ugo.ErrWrongNumArguments
+			}
+			var a []ugo.Object
+			for i := 1; i < c.Len(); i++ {
+				a = append(a, c.Get(i))
+			}
+			return ugo.NewInvoker(c.VM(), c.Get(0)).Invoke(a...)
+		}},
+		"callfnp": &ugo.Function{Name: "callfnp", ValueEx: func(c ugo.Call) (ugo.Object, error) {
+			if c.Len() < 1 {
+				return ugo.Undefined, ugo.ErrWrongNumArguments
+			}
+			var a []ugo.Object
+			for i := 1; i < c.Len(); i++ {
+				a = append(a, c.Get(i))
+			}
+			inv := ugo.NewInvoker(c.VM(), c.Get(0))
+			inv.Acquire()
+			defer inv.Release()
+			return inv.Invoke(a...)
+		}},
 	}
 }
 
 // runOn runs bc on vm (set as its bytecode) with an optional abort after a delay.
 func runOn(vm *ugo.VM, bc *ugo.Bytecode, abortAfterMs int, args []ugo.Object) *Sexp {
+	return runOnG(vm, bc, abortAfterMs, args, false)
+}
+
+// nilGlobals: Run is given no globals object (the VM creates its own)
+func runOnG(vm *ugo.VM, bc *ugo.Bytecode, abortAfterMs int, args []ugo.Object, nilGlobals bool) *Sexp {
 	vm.SetBytecode(bc)
 	if abortAfterMs > 0 {
 		go func() {
@@ -63,12 +93,16 @@ func runOn(vm *ugo.VM, bc *ugo.Bytecode, abortAfterMs int, args []ugo.Object) *S
 			vm.Abort()
 		}()
 	}
+	if nilGlobals {
+		return runVM(vm, nil, args...)
+	}
 	return runVM(vm, hostGlobals(), args...)
 }
 
-// (case id history <recover 0|1> (hist (<src hex> <clear 0|1> <abort ms>)...) <obs hex> (args v...) <module hex>...)
+// (case id history <recover 0|1|0n|1n> ; the suffix n: every Run is given nil globals (hist (<src hex> <clear 0|1> <abort ms> [(args v...)])...) <obs hex> (args v...) <module hex>...)
 func runHistory(args []*Sexp) *Sexp {
-	rec := args[0].Atom == "1"
+	rec := strings.HasPrefix(args[0].Atom, "1")
+	nilG := strings.HasSuffix(args[0].Atom, "n")
 	mm := func() *ugo.ModuleMap {
 		mm := moduleMapStd()
 		for i, a := range args[4:] {
@@ -96,7 +130,13 @@ func runHistory(args []*Sexp) *Sexp {
 		}
 		enc0 := encodeBytes(bc)
 		ms := int(atomInt(h.List[2]))
-		r := runOn(vm, bc, ms, nil)
+		var hargs []ugo.Object
+		if len(h.List) > 3 {
+			for _, a := range h.List[3].List[1:] {
+				hargs = append(hargs, ValueOfSexp(a))
+			}
+		}
+		r := runOnG(vm, bc, ms, hargs, nilG)
 		hist.List = append(hist.List, r)
 		if !bytes.Equal(enc0, encodeBytes(bc)) {
 			histUnchanged = "0"
@@ -105,9 +145,9 @@ func runHistory(args []*Sexp) *Sexp {
 			vm.Clear()
 		}
 	}
-	used := runOn(vm, obsBc, 0, obsArgs)
-	again := runOn(vm, obsBc, 0, obsArgs)
-	fresh := runOn(ugo.NewVM(nil).SetRecover(rec), obsBc, 0, obsArgs)
+	used := runOnG(vm, obsBc, 0, obsArgs, nilG)
+	again := runOnG(vm, obsBc, 0, obsArgs, nilG)
+	fresh := runOnG(ugo.NewVM(nil).SetRecover(rec), obsBc, 0, obsArgs, nilG)
 	after := encodeBytes(obsBc)
 	unchanged := "1"
 	if !bytes.Equal(before, after) {
